@@ -100,3 +100,19 @@ Example c02_nonvacuous :
   DOk [s_ [116;47;97;47;112;46;114;101;103;111]; s_ [116;47;114;46;114;101;103;111];
        s_ [116;47;97;47;112;46;114;101;103;111]].
 Proof. exact discover_example. Qed.
+
+(* a whole run on that tree: three discovered paths, two distinct files scanned, one violation
+   each plus one aggregate violation without a location (which counts as a "file") *)
+Example c02_lint_tree_nonvacuous :
+  exists fin,
+    lint_tree spec_skips spec_ext (fun _ _ => false) (fun _ => true) ex_res ex_aggreport
+              ex_tree [s_ [116]; s_ [116;47;97;47]] [] =
+    LOk [s_ [116;47;97;47;112;46;114;101;103;111]; s_ [116;47;114;46;114;101;103;111]] fin /\
+    f_scanned fin = 2 /\ f_num fin = 3 /\ f_failed fin = 3.
+Proof. exact lint_tree_example. Qed.
+
+(* H_ops and H_loc are satisfiable *)
+Example c02_compose_hypotheses_satisfiable :
+  (forall f b, r_viol (ex_res f b) = r_viol (ex_res f false)) /\
+  (forall f b v, In v (r_viol (ex_res f b)) -> v_file v = f).
+Proof. exact compose_hypotheses_satisfiable. Qed.
